@@ -13,10 +13,10 @@ use std::time::Duration;
 use vcore::refval::RefVal;
 use vcore::report::Report;
 
-const EVENTS: [&str; 21] = [
+const EVENTS: [&str; 22] = [
     "send->live", "send->dead", "send->never", "reg_send->registered", "reg_send->unknown", "exit->live", "monitor_exit->live", "rpc_reply",
     "unknown_control_99", "control_rejected_by_parser", "tick", "undecodable_body", "wrong_marker", "overlong_length", "premature_close", "close",
-    "silence_5s", "silence_9s", "silence_15s", "local:register_later", "reg_send->later",
+    "silence_5s", "silence_9s", "silence_15s", "local:register_later", "reg_send->later", "send->crashed",
 ];
 
 fn execute(seq: &[usize], ctx: &WorkerCtx) -> ExecResult {
@@ -33,6 +33,9 @@ fn execute(seq: &[usize], ctx: &WorkerCtx) -> ExecResult {
         let p3 = nw.node.spawn(Rec { name: "p3".into(), log: log.clone() }).await.unwrap();
         nw.node.register(Atom::new("reg"), p2.clone()).await.unwrap();
         nw.node.send(&p3, OwnedTerm::atom("die")).await.unwrap();
+        // a process whose handler panicked (its task is gone without an orderly exit)
+        let p4 = nw.node.spawn(Bomb).await.unwrap();
+        nw.node.send(&p4, OwnedTerm::atom("boom")).await.unwrap();
         // an outstanding remote call with a far deadline
         let rpc_result: Arc<Mutex<Option<String>>> = Arc::new(Mutex::new(None));
         { let (node, r) = (nw.node.clone(), rpc_result.clone());
@@ -44,7 +47,7 @@ fn execute(seq: &[usize], ctx: &WorkerCtx) -> ExecResult {
         let (frames, _) = nw.peer.dist_frames();
         let reply_to: Option<RefVal> = frames.iter().filter_map(|f| vcore::proto::read_pass_through(f).ok()).filter_map(|m| match (&m.control, &m.payload) { (RefVal::Tuple(c), Some(RefVal::Tuple(p))) if c.len() == 4 && c[0] == RefVal::int(6) => Some(p[0].clone()), _ => None }).next();
         let never = RefVal::Pid { node: "me@127.0.0.1".into(), id: 777_777, serial: 3, creation: crate::world::EPMD_CREATION };
-        let (d1, d3) = (den_pid(&p1), den_pid(&p3));
+        let (d1, d3, d4) = (den_pid(&p1), den_pid(&p3), den_pid(&p4));
         // reference models: ideal (the property) and as-is (receiver dies after 10 s without a complete frame)
         let mut ideal: Vec<(String, String)> = vec![];
         let mut asis: Vec<(String, String)> = vec![];
@@ -65,6 +68,7 @@ fn execute(seq: &[usize], ctx: &WorkerCtx) -> ExecResult {
             match name {
                 "send->live" => { nw.peer.send(&send_to(&d1, mark.clone())); delivered = Some(("p1".into(), format!("msg:{}", mark))); }
                 "send->dead" => { nw.peer.send(&send_to(&d3, mark.clone())); }
+                "send->crashed" => { nw.peer.send(&send_to(&d4, mark.clone())); }
                 "send->never" => { nw.peer.send(&send_to(&never, mark.clone())); }
                 "reg_send->registered" => { nw.peer.send(&reg_send_to("reg", mark.clone())); delivered = Some(("p2".into(), format!("msg:{}", mark))); }
                 "reg_send->unknown" => { nw.peer.send(&reg_send_to("nobody", mark.clone())); }
@@ -86,7 +90,11 @@ fn execute(seq: &[usize], ctx: &WorkerCtx) -> ExecResult {
                 "unknown_control_99" => { nw.peer.send(&pt(RefVal::Tuple(vec![RefVal::int(99), d1.clone(), RefVal::atom("x")]), Some(mark.clone()))); }
                 "control_rejected_by_parser" => { nw.peer.send(&pt(RefVal::Tuple(vec![RefVal::int(35), RefVal::int(-1), peer_pid(1), d1.clone()]), None)); }
                 "tick" => { nw.peer.send(&[0, 0, 0, 0]); }
-                "undecodable_body" => { nw.peer.send(&vcore::proto::frame(&[112, 131, 104, 3, 97], 4)); }
+                "undecodable_body" => {
+                    // a different kind of undecodable body at each position of the sequence
+                    let bodies: [&[u8]; 4] = [&[112, 131, 104, 3, 97], &[112], &[112, 131], &[112, 200, 1]];
+                    nw.peer.send(&vcore::proto::frame(bodies[(n as usize - 1) % 4], 4));
+                }
                 "wrong_marker" => { nw.peer.send(&vcore::proto::frame(&[131, 68, 0, 104, 1, 97, 1], 4)); }
                 "overlong_length" => { nw.peer.send(&[0xF0, 0, 0, 0, 1, 2, 3]); alive_ideal = false; alive_asis = false; }
                 "premature_close" => { nw.peer.send(&[0, 0, 0, 10, 112, 131, 97]); nw.peer.close(); alive_ideal = false; alive_asis = false; }
@@ -273,6 +281,6 @@ pub fn run(rep: &Report) -> Value {
         "distinct_outcomes": st.distinct_outcomes,
         "outcomes": st.outcomes,
         "unstable_failures_not_reported": st.unstable,
-        "rule": format!("every sequence of <= {} events over a 21-event alphabet (sends to live/dead/never-existing pids, registered/unknown/late-registered names, exit, monitor exit, rpc reply, unknown control kind, control tuple the parser rejects, tick, undecodable body, wrong marker, over-long length, premature close, close, 5/9/15 s of silence, a local registration) against a real started Node with three instrumented processes and one outstanding remote call, followed by a final valid message; plus five backlog executions in which a process held at a gate is sent 999..1500 messages, an exit signal and traffic for another process (mailbox capacity is 1000); four executions in which the peer's first 0..5 frames (and half of one more) share a TCP segment with the handshake acknowledgement; states = complete executions", max_len),
+        "rule": format!("every sequence of <= {} events over a 22-event alphabet (sends to live/dead/never-existing pids and to a process whose handler panicked, registered/unknown/late-registered names, exit, monitor exit, rpc reply, unknown control kind, control tuple the parser rejects, tick, undecodable body (truncated term, marker only, marker and version only, unknown tag - by position), wrong marker, over-long length, premature close, close, 5/9/15 s of silence, a local registration) against a real started Node with three instrumented processes and one outstanding remote call, followed by a final valid message; plus five backlog executions in which a process held at a gate is sent 999..1500 messages, an exit signal and traffic for another process (mailbox capacity is 1000); four executions in which the peer's first 0..5 frames (and half of one more) share a TCP segment with the handshake acknowledgement; states = complete executions", max_len),
     })
 }
